@@ -20,7 +20,8 @@ Ops == [ login   |-> <<"set">>,                                                 
 Scenarios == DOMAIN Ops
 
 ValueKinds == {"corrupt", "truncate", "short", "missing"}       \* only a read returns a value
-Kinds(op) == {"err_before", "err_after"} \cup (IF op = "get" THEN ValueKinds ELSE {})
+\* outage: error before effect for this operation AND every later one (store unreachable from here on; defeats any retry)
+Kinds(op) == {"err_before", "err_after", "outage"} \cup (IF op = "get" THEN ValueKinds ELSE {})
 
 \* the serve decision depends on this operation (it precedes and feeds it); failures after the decision may be answered either way
 Decisive(scn, k) ==
@@ -32,9 +33,9 @@ Persists(scn, k) == Ops[scn][k] = "set"
 
 Fault(k, kind) == [k |-> k, kind |-> kind]
 FaultSets(scn) ==
-    LET single == {<<Fault(k, kd)>> : k \in 1..Len(Ops[scn]), kd \in {"err_before", "err_after"} \cup ValueKinds}
+    LET single == {<<Fault(k, kd)>> : k \in 1..Len(Ops[scn]), kd \in {"err_before", "err_after", "outage"} \cup ValueKinds}
         valid1 == {f \in single : f[1].kind \in Kinds(Ops[scn][f[1].k])}
-        pairs  == {<<f1[1], f2[1]>> : f1 \in valid1, f2 \in valid1}
+        pairs  == {<<f1[1], f2[1]>> : f1 \in {f \in valid1 : f[1].kind # "outage"}, f2 \in valid1}
     IN valid1 \cup (IF Pairs THEN {p \in pairs : p[1].k < p[2].k} ELSE {})
 
 \* ---- what the property forbids for a case ---------------------------------------------------------
@@ -44,8 +45,13 @@ Hit(fs, P(_)) == \E i \in 1..Len(fs) : P(fs[i])
 MustNotServe(scn, fs) == Decisive(scn, fs[1].k)
 \* a failed write: no cookie for that session
 MustNotSetCookie(scn, fs) == Hit(fs, LAMBDA f : Persists(scn, f.k))
+\* whatever happens: no crash, and a cookie that was handed out loads a session once the store is healthy again
+Always(scn) == [panic |-> FALSE, brokenCookie |-> FALSE]
+               @@ (IF scn = "signout" THEN [falseSuccess |-> FALSE] ELSE <<>>)
+\* If the implementation repeats a failed operation and the repeat succeeds (a retry), the operation did not fail in the
+\* sense of the property and the operation sequence is no longer the scenario's: only Always applies (reported as diverged).
 Req(scn, fs) ==
-    [panic |-> FALSE]
+    [panic |-> FALSE, brokenCookie |-> FALSE]
     @@ (IF scn \in {"request", "refresh"} /\ MustNotServe(scn, fs) THEN [served |-> FALSE] ELSE <<>>)
     @@ (IF MustNotSetCookie(scn, fs) THEN [session |-> [not |-> "set"]] ELSE <<>>)
     @@ (IF scn = "signout" THEN [falseSuccess |-> FALSE] ELSE <<>>)          \* never "302" while the old cookie still authenticates
@@ -57,7 +63,7 @@ Init == \E scn \in Scenarios, fs \in UNION {FaultSets(s) : s \in Scenarios} :
 Next == UNCHANGED c
 
 CaseRec == [fam |-> "faults", in |-> [first |-> [op |-> Ops[c.scenario][c.faults[1].k], kind |-> c.faults[1].kind]] @@ [c EXCEPT !.faults = [i \in 1..Len(c.faults) |-> [k |-> c.faults[i].k, kind |-> c.faults[i].kind, op |-> Ops[c.scenario][c.faults[i].k]]]],
-            req |-> Req(c.scenario, c.faults)]
+            req |-> Req(c.scenario, c.faults), reqIfRecovered |-> Always(c.scenario)]
 EmitVocab == JsonSerialize("vocab.json", Vocab)
 EmitCase  == CSVWrite("%1$s", <<ToJson(CaseRec)>>, "cases.ndjson")
 =============================================================================
